@@ -1,0 +1,16 @@
+//go:build verif
+
+package jsonschema
+
+// Comment-only file: machine-checked contracts for /verif (see /verif/DESIGN.md).
+// There is no code in this file; the build tag keeps it out of every normal build.
+//
+// C10 - numbers decoded by the JSON Schema library arrive as json.Number (a string type); before a
+// default, constant or enum value enters the IR it has to be unwrapped to the Go number it denotes,
+// otherwise the language back ends render it as a quoted string.
+//@ func unwrapJSONNumber
+//@   property C10
+//@   modifies nothing
+//@   ensures  unwrapped: !hastype(result, "encoding/json.Number")
+//@   ensures  numbers: hastype(input, "encoding/json.Number") ==> hastype(result, "int64") || hastype(result, "float64") || hastype(result, "string")
+//@   ensures  others: !hastype(input, "encoding/json.Number") ==> result == input
